@@ -735,3 +735,31 @@ Proof.
     { apply filter_all. constructor; [lia|]. eapply Forall_impl; [|exact HallW]. cbn. intros; lia. }
     rewrite Hall, Hwl. lia.
 Qed.
+
+(* ---- the hypotheses of the codec theorems hold for every tree the system builds, and for decoded trees ---- *)
+Lemma sorted_names_map : forall f ch, (forall c, t_name (f c) = t_name c) -> sorted_names (map f ch) = sorted_names ch.
+Proof.
+  intros f ch Hf. induction ch as [|c ch IH]; [reflexivity|].
+  destruct ch as [|c' ch']; [reflexivity|].
+  change (sorted_names (map f (c :: c' :: ch'))) with (bltb (t_name (f c)) (t_name (f c')) && sorted_names (map f (c' :: ch'))).
+  rewrite IH, !Hf. reflexivity.
+Qed.
+
+Lemma R_wf : forall th t, t_wfb t = true -> t_wfb (R th t) = true.
+Proof.
+  intros th. induction t as [n s tot ch IH] using tnode_ind'. intros Hwf.
+  apply t_wfb_iff in Hwf. cbn [t_ch] in Hwf. destruct Hwf as [Hs Hc].
+  rewrite R_eq. destruct (th <? tot); [|reflexivity].
+  apply t_wfb_iff. cbn [t_ch]. split.
+  - rewrite sorted_names_map; [exact Hs|apply R_name].
+  - rewrite Forall_map. rewrite Forall_forall in *. auto.
+Qed.
+
+Lemma built_wf_exact : forall ss : list (bytes * N),
+  let t := fold_left (fun t kv => t_insert (fst kv) (snd kv) t) ss t_empty in
+  t_wfb t = true /\ t_exactb t = true.
+Proof.
+  intros ss. cbv zeta. assert (H : t_wfb t_empty = true /\ t_exactb t_empty = true) by (split; reflexivity).
+  revert H. generalize t_empty. induction ss as [|[k v] ss IH]; intros t [Hw He]; [split; assumption|].
+  cbn [fold_left fst snd]. apply IH. split; [apply t_insert_wfb; exact Hw|apply t_insert_exact; exact He].
+Qed.
